@@ -137,6 +137,59 @@ func (g *Group) batchEvent(t *TraceWriter, base reflect.Value, n int, r *Rng) {
 	t.Emit(e)
 }
 
+// batchSampledEvent runs a large batch and logs a sample of (index, scalar, result): scalars with the top
+// bit set (q-1-j), small ones, zero and random ones
+func (g *Group) batchSampledEvent(t *TraceWriter, base reflect.Value, n int, r *Rng) {
+	fn, ok := g.C.Funcs["BatchScalarMultiplication"+g.G]
+	if !ok {
+		return
+	}
+	fr := g.C.Fr
+	sl := reflect.MakeSlice(reflect.SliceOf(fr.ElemT), n, n)
+	raws := make([][]int, n)
+	top := new(big.Int).Lsh(big.NewInt(1), uint(fr.Q.BitLen()-1))
+	for i := 0; i < n; i++ {
+		var v *big.Int
+		switch i % 6 {
+		case 3:
+			v = big.NewInt(0)
+		case 0:
+			v = big.NewInt(int64(i / 6))
+		case 1:
+			v = new(big.Int).Sub(fr.Q, big.NewInt(int64(1+i/6)))
+		case 4:
+			// top bit of the order set, random below: the last window takes its largest digits
+			v = new(big.Int).Add(top, r.Below(new(big.Int).Sub(fr.Q, top)))
+		default:
+			v = r.Below(fr.Q)
+		}
+		raw := fr.ToMont(v)
+		fr.SetRaw(sl.Index(i).Addr(), raw)
+		raws[i] = digits(raw)
+	}
+	e := Ev{"op": "BatchScalarMultiplication.sampled", "g": g.G, "P": tagged("aff", base), "n": n}
+	out, pm, pk := call(fn, clonePtr(base), sl)
+	if pk {
+		e["panic"] = pm
+	} else {
+		idx := []int{}
+		scs := [][]int{}
+		res := []any{}
+		step := n / 12
+		for k := 0; k < 14 && out[0].Len() > 0; k++ {
+			i := (k*step + k%6 + int(r.Below(big.NewInt(int64(step))).Int64())/6*6) % out[0].Len()
+			idx = append(idx, i+1)
+			scs = append(scs, raws[i])
+			res = append(res, tagged("aff", out[0].Index(i).Addr()))
+		}
+		e["nouts"] = out[0].Len()
+		e["idx"] = idx
+		e["scalars"] = scs
+		e["outs"] = res
+	}
+	t.Emit(e)
+}
+
 func runC03(args []string) {
 	fs := flag.NewFlagSet("c03", flag.ExitOnError)
 	out := fs.String("out", ".", "output directory")
@@ -208,6 +261,18 @@ func runC03(args []string) {
 					n = 6
 				}
 				g.batchEvent(t, kG, n, r)
+			}
+			// large batches: the window chosen by BatchScalarMultiplication grows with n (the maximum is
+			// reached a little below 4000 scalars); sampled indices are judged
+			big := []int{4500}
+			if *tier == "thorough" {
+				big = []int{600, 1500, 4500, 40000}
+			}
+			if gn == "G2" && slow && *tier != "thorough" {
+				big = nil
+			}
+			for _, n := range big {
+				g.batchSampledEvent(t, kG, n, r)
 			}
 			total += t.Close()
 		}
